@@ -5,14 +5,26 @@ import ArrProofs.Lemmas.C14
 Property theorems only (helpers: `ArrProofs/Lemmas/C14.lean`).  Model under test: `ArrModel/C14.lean`
 (`matmul`, `dot`, `vdot`, `inner`, `outer` with their rank dispatch and helpers, as repaired by
 `/verif/fixes/C14-*.diff`).  Entries are integers; `a.ent c` reads the entry at coordinates `c`
-(`Arr.get?` with default `0`; `get?_eq_some_ent` shows the read is defined on every in-range coordinate).
-Sums are `Finset` sums over the shared index.
+(`Arr.get?` with default `0`; `ent_defined` shows the read is defined on every in-range coordinate of a
+well-formed array).  Sums are `Finset` sums over the shared index.  Unless a hypothesis says otherwise the
+statements hold for every length including zero; `0 < …` hypotheses appear exactly where the Rust goes
+through `split_axis` / `split`, whose behaviour on empty arrays is outside the property (lengths 1..).
+
+Open finding (test-pinned, see `/verif/fixes/C14-dot-2d-rectangular-refused.md`): `dot` of two matrices
+refuses a conforming product whose result is not square.  `DotMatMat` is the full statement,
+`dot_22_partial` proves it outside that region, `dot_22_open_witness` refutes it at the witness.
 -/
 namespace ArrModel.C14
 open ArrModel Finset
 
+/-- the specification read is a real read: on a well-formed array every in-range coordinate has an entry -/
+theorem ent_defined (a : A) (hwf : a.WF) (c : List Nat) (h : inRange a.shape c = true) :
+    a.get? c = some (a.ent c) := get?_eq_some_ent a hwf c h
+
+/-! ## matmul -/
+
 /-- **matrix · matrix**: `[n,m] · [m,p]` is accepted, has shape `[n,p]`, is well-formed, and
-entry `(i,j)` is `Σ_k A[i,k]·B[k,j]`. No bound on `n, m, p` (zero lengths included). -/
+entry `(i,j)` is `Σ_k A[i,k]·B[k,j]`. -/
 theorem matmul_22 (a b : A) (n m p : Nat) (ha : a.WF) (hb : b.WF)
     (hsa : a.shape = [n, m]) (hsb : b.shape = [m, p]) :
     ∃ r, matmul a b = .ok r ∧ r.shape = [n, p] ∧ r.WF ∧
@@ -22,8 +34,481 @@ theorem matmul_22 (a b : A) (n m p : Nat) (ha : a.WF) (hb : b.WF)
     simp only [Arr.ndim, hsa, hsb]
     simp
     exact matmul22_eq a b n m p ha hb hsa hsb
-  · simp [Arr.WF, mm22, length_flatMap_range]
+  · simp [Arr.WF, mm22]
   · intro i j hi hj
     rw [mm22_get a b n m p i j hi hj, cellSpec_eq_ent a b n m p i j hsa hsb]
+
+/-- **vector · matrix**: `[k] · [k,p]` has shape `[p]` and entry `j` is `Σ_i a[i]·B[i,j]`. -/
+theorem matmul_vec_mat (a b : A) (k p : Nat) (ha : a.WF) (hb : b.WF)
+    (hsa : a.shape = [k]) (hsb : b.shape = [k, p]) :
+    ∃ r, matmul a b = .ok r ∧ r.shape = [p] ∧ r.WF ∧
+      ∀ j, j < p → r.get? [j] = some (∑ i ∈ range k, a.ent [i] * b.ent [i, j]) := by
+  refine ⟨vm12 a b k p, ?_, by simp [vm12, Arr.flat], by simp [vm12, Arr.flat, Arr.WF], ?_⟩
+  · unfold matmul
+    simp only [Arr.ndim, hsa, hsb]
+    simp [shapesAlign]
+    exact matmul1dNd_vecmat 2 a b k p ha hb hsa hsb
+  · intro j hj
+    simp only [Arr.get?, vm12, Arr.flat, ravel, List.length_map, List.length_range, List.prod_nil, Nat.mul_one,
+      Nat.add_zero, List.getElem?_map, List.getElem?_range hj, Option.map_some]
+    congr 1
+    apply Finset.sum_congr rfl
+    intro i _
+    rw [ent_eq_getD, ent_eq_getD, hsa, hsb]; simp [ravel]
+
+/-- **matrix · vector**: `[n,k] · [k]` has shape `[n]` and entry `i` is `Σ_q A[i,q]·b[q]`. -/
+theorem matmul_mat_vec (a b : A) (n k : Nat) (ha : a.WF) (hb : b.WF) (hn : 0 < n) (hk : 0 < k)
+    (hsa : a.shape = [n, k]) (hsb : b.shape = [k]) :
+    ∃ r, matmul a b = .ok r ∧ r.shape = [n] ∧ r.WF ∧
+      ∀ i, i < n → r.get? [i] = some (∑ q ∈ range k, a.ent [i, q] * b.ent [q]) := by
+  refine ⟨mv21 a b n k, ?_, by simp [mv21, Arr.flat], by simp [mv21, Arr.flat, Arr.WF], ?_⟩
+  · unfold matmul
+    simp only [Arr.ndim, hsa, hsb]
+    simp [shapesAlign]
+    exact matmul1dNd_matvec 2 a b n k ha hb hn hk hsa hsb
+  · intro i hi
+    simp only [Arr.get?, mv21, Arr.flat, ravel, List.length_map, List.length_range, List.prod_nil, Nat.mul_one,
+      Nat.add_zero, List.getElem?_map, List.getElem?_range hi, Option.map_some]
+    congr 1
+    apply Finset.sum_congr rfl
+    intro q _
+    rw [ent_eq_getD, ent_eq_getD, hsa, hsb]; simp [ravel]
+
+/-- **vector · vector** under `matmul` is the flattened dot product, a one-element array. -/
+theorem matmul_vec_vec (a b : A) (k : Nat) (ha : a.WF) (hb : b.WF) (hsa : a.shape = [k]) (hsb : b.shape = [k]) :
+    matmul a b = .ok ⟨[∑ i ∈ range k, a.ent [i] * b.ent [i]], [1]⟩ := by
+  have hla : a.elems.length = k := by rw [ha, hsa]; simp
+  have hlb : b.elems.length = k := by rw [hb, hsb]; simp
+  unfold matmul vdot
+  simp only [Arr.ndim, Arr.len, hsa, hsb, hla, hlb]
+  simp only [List.length_cons, List.length_nil, Nat.zero_add, and_self, if_true]
+  rw [sumProd_eq_sum _ _ (by rw [hla, hlb]), hla]
+  congr 3
+  apply Finset.sum_congr rfl
+  intro i _
+  rw [ent_eq_getD, ent_eq_getD, hsa, hsb]; simp [ravel]
+
+/-- **equally shaped stacks**: `[s,n,m] · [s,m,p]` has shape `[s,n,p]` and
+entry `(t,i,j)` is `Σ_k A[t,i,k]·B[t,k,j]`. -/
+theorem matmul_stack (a b : A) (s n m p : Nat) (ha : a.WF) (hb : b.WF)
+    (hs : 0 < s) (hn : 0 < n) (hm : 0 < m) (hp : 0 < p)
+    (hsa : a.shape = [s, n, m]) (hsb : b.shape = [s, m, p]) :
+    ∃ r, matmul a b = .ok r ∧ r.shape = [s, n, p] ∧ r.WF ∧
+      ∀ t i j, t < s → i < n → j < p →
+        r.get? [t, i, j] = some (∑ k ∈ range m, a.ent [t, i, k] * b.ent [t, k, j]) := by
+  refine ⟨ms33 a b s n m p, ?_, rfl, ?_, ?_⟩
+  · unfold matmul
+    simp only [Arr.ndim, hsa, hsb]
+    simp
+    exact matmulNd_stack a b s n m p ha hb hs hn hm hp hsa hsb
+  · unfold Arr.WF ms33
+    simp only
+    rw [length_flatMap_uniform _ _ (n * p) (by intro t _; simp [mm22, length_flatMap_range])]
+    simp
+  · intro t i j ht hi hj
+    exact ms33_get a b s n m p t i j ht hi hj hsa hsb
+
+/-- **stacks, slice form**: the `t`-th matrix of the result is `matmul` of the `t`-th matrices of the operands. -/
+theorem matmul_stack_slices (a b : A) (s n m p : Nat) (ha : a.WF) (hb : b.WF)
+    (hs : 0 < s) (hn : 0 < n) (hm : 0 < m) (hp : 0 < p)
+    (hsa : a.shape = [s, n, m]) (hsb : b.shape = [s, m, p]) :
+    ∃ r, matmul a b = .ok r ∧ ∀ t, t < s →
+      matmul ⟨slab a (n * m) t, [n, m]⟩ ⟨slab b (m * p) t, [m, p]⟩ = .ok ⟨slab r (n * p) t, [n, p]⟩ := by
+  refine ⟨ms33 a b s n m p, ?_, ?_⟩
+  · unfold matmul
+    simp only [Arr.ndim, hsa, hsb]
+    simp
+    exact matmulNd_stack a b s n m p ha hb hs hn hm hp hsa hsb
+  · intro t ht
+    have h22 : matmul ⟨slab a (n * m) t, [n, m]⟩ ⟨slab b (m * p) t, [m, p]⟩
+        = matmul22 ⟨slab a (n * m) t, [n, m]⟩ ⟨slab b (m * p) t, [m, p]⟩ := by
+      unfold matmul; simp [Arr.ndim]
+    rw [h22, matmul22_eq _ _ n m p (slab_wf a s n m t ha hsa ht) (slab_wf b s m p t hb hsb ht) rfl rfl]
+    rw [slab_ms33 a b s n m p t ht]
+    rfl
+
+/-! ### matmul: operands whose contracted lengths differ are refused, arm by arm -/
+
+theorem matmul_refuses_22 (a b : A) (n m m' p : Nat) (hsa : a.shape = [n, m]) (hsb : b.shape = [m', p])
+    (h : m ≠ m') : matmul a b = .err .ParameterError := by
+  unfold matmul matmul22 shapesAlign
+  simp [Arr.ndim, hsa, hsb, h]
+
+/-- vector · N-D (N ≥ 2): the vector length is compared with the second-to-last axis -/
+theorem matmul_refuses_vec_nd (a b : A) (k k' : Nat) (hsa : a.shape = [k]) (hb : 2 ≤ b.ndim)
+    (hk' : b.shape[b.ndim - 2]? = some k') (h : k ≠ k') : matmul a b = .err .ParameterError := by
+  unfold matmul shapesAlign
+  have h1 : ¬ (b.ndim = 1) := by omega
+  simp [Arr.ndim, hsa] at h1 ⊢
+  simp [h1, Arr.ndim] at hk' ⊢
+  simp [hk', h]
+
+/-- N-D · vector (N ≥ 2): the last axis is compared with the vector length -/
+theorem matmul_refuses_nd_vec (a b : A) (k k' : Nat) (hsb : b.shape = [k']) (ha : 2 ≤ a.ndim)
+    (hk : a.shape[a.ndim - 1]? = some k) (h : k ≠ k') : matmul a b = .err .ParameterError := by
+  unfold matmul shapesAlign
+  have h1 : ¬ (a.ndim = 1) := by omega
+  simp [Arr.ndim, hsb] at h1 ⊢
+  simp [h1, Arr.ndim] at hk ⊢
+  simp [hk, h]
+
+theorem matmul_refuses_vec_vec (a b : A) (k k' : Nat) (ha : a.WF) (hb : b.WF) (hsa : a.shape = [k])
+    (hsb : b.shape = [k']) (h : k ≠ k') : matmul a b = .err .MustBeEqual := by
+  have hla : a.elems.length = k := by rw [ha, hsa]; simp
+  have hlb : b.elems.length = k' := by rw [hb, hsb]; simp
+  unfold matmul vdot
+  simp [Arr.ndim, Arr.len, hsa, hsb, hla, hlb, h]
+
+/-- stacks whose matrices do not conform are refused -/
+theorem matmul_refuses_stack (a b : A) (s n m m' p : Nat) (ha : a.WF) (hb : b.WF)
+    (hs : 0 < s) (hn : 0 < n) (hm : 0 < m) (hm' : 0 < m') (hp : 0 < p)
+    (hsa : a.shape = [s, n, m]) (hsb : b.shape = [s, m', p]) (h : m ≠ m') :
+    matmul a b = .err .ParameterError := by
+  have hla := wf_len3 ha hsa
+  have hlb := wf_len3 hb hsb
+  have hnm : 0 < n * m := Nat.mul_pos hn hm
+  have hmp : 0 < m' * p := Nat.mul_pos hm' hp
+  unfold matmul
+  simp only [Arr.ndim, hsa, hsb]
+  simp
+  unfold matmulNd
+  simp only [Arr.ndim, Arr.len, hsa, hsb, hla, hlb, List.length_cons, List.length_nil, Res.idx]
+  simp only [Nat.zero_add, Nat.reduceAdd, Nat.reduceSub, ge_iff_le, Nat.le_refl, if_true, List.getElem?_cons_succ,
+    List.getElem?_cons_zero, Res.bind_ok, List.drop_succ_cons, List.drop_zero,
+    List.prod_cons, List.prod_nil, Nat.mul_one]
+  simp only [List.length_cons, List.length_nil, Nat.zero_add, Nat.reduceAdd, Nat.reduceLT, if_false]
+  rw [if_neg (by omega)]
+  simp only [Nat.mul_div_cancel s hnm, Nat.mul_div_cancel s hmp, Nat.max_self]
+  rw [matmulSplit_stack a s n m ha hs hn hm hsa, matmulSplit_stack b s m' p hb hs hm' hp hsb]
+  simp only [Res.bind_ok, List.zip_map', List.map_map]
+  rw [collectRes_all_err _ _ .ParameterError (by simp; omega)]
+  · rfl
+  · intro t _
+    simp [matmul22, shapesAlign, h]
+
+/-! ## dot (operands up to rank two) -/
+
+/-- **scalar · array**: a one-element left operand scales the other operand (shape: the broadcast shape) -/
+theorem dot_scalar_left (a b : A) (ha : a.WF) (h1 : a.len = 1) :
+    ∃ x, a.elems = [x] ∧
+      dot a b = some (.ok ⟨b.elems.map (fun y => x * y), List.replicate (a.ndim - b.ndim) 1 ++ b.shape⟩) := by
+  have hs : a.shape = List.replicate a.ndim 1 := ones_of_prod_eq_one a.shape (by rw [← ha]; exact h1)
+  obtain ⟨x, hx⟩ : ∃ x, a.elems = [x] := by
+    match hE : a.elems, h1 with
+    | [x], _ => exact ⟨x, rfl⟩
+    | [], h => simp [Arr.len, hE] at h
+    | _ :: _ :: _, h => simp [Arr.len, hE] at h
+  refine ⟨x, hx, ?_⟩
+  unfold dot
+  rw [if_pos (Or.inl h1)]
+  simp only [multiplyScalar, hx]
+  rw [hs, bshape_ones_left']
+  simp [Arr.ndim]
+
+/-- **array · scalar** -/
+theorem dot_scalar_right (a b : A) (hb : b.WF) (h1 : b.len = 1) :
+    ∃ y, b.elems = [y] ∧
+      dot a b = some (.ok ⟨a.elems.map (fun x => x * y), List.replicate (b.ndim - a.ndim) 1 ++ a.shape⟩) := by
+  have hs : b.shape = List.replicate b.ndim 1 := ones_of_prod_eq_one b.shape (by rw [← hb]; exact h1)
+  obtain ⟨y, hy⟩ : ∃ y, b.elems = [y] := by
+    match hE : b.elems, h1 with
+    | [y], _ => exact ⟨y, rfl⟩
+    | [], h => simp [Arr.len, hE] at h
+    | _ :: _ :: _, h => simp [Arr.len, hE] at h
+  refine ⟨y, hy, ?_⟩
+  unfold dot
+  rw [if_pos (Or.inr h1)]
+  have hm : multiplyScalar a b = .ok ⟨a.elems.map (fun x => x * y), bshape a.shape b.shape⟩ := by
+    unfold multiplyScalar
+    rw [hy]
+    rcases a.elems with _ | ⟨x1, _ | ⟨x2, r⟩⟩
+    · rfl
+    · rfl
+    · rfl
+  rw [hm, hs, bshape_ones_right']
+  simp [Arr.ndim]
+
+/-- **vector · vector**: the sum of the products, a one-element array -/
+theorem dot_11 (a b : A) (k : Nat) (ha : a.WF) (hb : b.WF) (hsa : a.shape = [k]) (hsb : b.shape = [k]) (hk : k ≠ 1) :
+    dot a b = some (.ok ⟨[∑ i ∈ range k, a.ent [i] * b.ent [i]], [1]⟩) := by
+  have hla : a.elems.length = k := by rw [ha, hsa]; simp
+  have hlb : b.elems.length = k := by rw [hb, hsb]; simp
+  have := matmul_vec_vec a b k ha hb hsa hsb
+  unfold matmul at this
+  simp only [Arr.ndim, hsa, hsb, List.length_cons, List.length_nil, Nat.zero_add, and_self, if_true] at this
+  unfold dot
+  simp only [Arr.len, hla, hlb, Arr.ndim, hsa, hsb, List.length_cons, List.length_nil, Nat.zero_add, and_self,
+    if_true, or_self, hk, if_false, this]
+
+/-- **matrix · vector** under `dot` -/
+theorem dot_21 (a b : A) (n k : Nat) (ha : a.WF) (hb : b.WF) (hsa : a.shape = [n, k]) (hsb : b.shape = [k])
+    (h1 : a.len ≠ 1) (h2 : b.len ≠ 1) :
+    ∃ r, dot a b = some (.ok r) ∧ r.shape = [n] ∧ r.WF ∧
+      ∀ i, i < n → r.get? [i] = some (∑ q ∈ range k, a.ent [i, q] * b.ent [q]) := by
+  have hla := wf_len2 ha hsa
+  have hlb : b.elems.length = k := by rw [hb, hsb]; simp
+  refine ⟨Arr.flat ((List.range n).map (fun i => sumProd (row a k i) b.elems)), ?_, by simp [Arr.flat],
+    by simp [Arr.flat, Arr.WF], ?_⟩
+  · unfold dot
+    rw [if_neg (by simp [h1, h2])]
+    simp only [Arr.ndim, hsa, hsb, List.length_cons, List.length_nil]
+    simp
+    exact dot1d_matvec a b n k ha hb hsa hsb
+  · intro i hi
+    have hlr : (row a k i).length = k := length_row a k i (by rw [hla]; exact Nat.mul_le_mul_right k hi)
+    simp only [Arr.get?, Arr.flat, ravel, List.length_map, List.length_range, List.prod_nil, Nat.mul_one,
+      Nat.add_zero, List.getElem?_map, List.getElem?_range hi, Option.map_some]
+    congr 1
+    rw [sumProd_eq_sum _ _ (by rw [hlr, hlb]), hlr]
+    apply Finset.sum_congr rfl
+    intro q hq
+    have hq' : q < k := by simpa using hq
+    simp only [row]
+    rw [getD_piece _ _ _ _ hq', ent_eq_getD, ent_eq_getD, hsa, hsb]; simp [ravel]
+
+/-- **vector · matrix** under `dot` -/
+theorem dot_12 (a b : A) (k p : Nat) (ha : a.WF) (hsa : a.shape = [k]) (hsb : b.shape = [k, p])
+    (h1 : a.len ≠ 1) (h2 : b.len ≠ 1) :
+    ∃ r, dot a b = some (.ok r) ∧ r.shape = [p] ∧ r.WF ∧
+      ∀ j, j < p → r.get? [j] = some (∑ i ∈ range k, a.ent [i] * b.ent [i, j]) := by
+  have hla : a.elems.length = k := by rw [ha, hsa]; simp
+  refine ⟨Arr.flat ((List.range p).map (fun j => sumProd a.elems (col b k p j))), ?_, by simp [Arr.flat],
+    by simp [Arr.flat, Arr.WF], ?_⟩
+  · unfold dot
+    rw [if_neg (by simp [h1, h2])]
+    simp only [Arr.ndim, hsa, hsb, List.length_cons, List.length_nil]
+    simp
+    exact dot1d_vecmat a b k p ha hsa hsb
+  · intro j hj
+    simp only [Arr.get?, Arr.flat, ravel, List.length_map, List.length_range, List.prod_nil, Nat.mul_one,
+      Nat.add_zero, List.getElem?_map, List.getElem?_range hj, Option.map_some]
+    congr 1
+    rw [sumProd_eq_sum _ _ (by simp [col, hla]), hla]
+    apply Finset.sum_congr rfl
+    intro i hi
+    have hi' : i < k := by simpa using hi
+    rw [getD_col b k p j i hi', ent_eq_getD, ent_eq_getD, hsa, hsb]; simp [ravel]
+
+/-- the full C14 statement for `dot` on a conforming pair of matrices -/
+def DotMatMat (a b : A) (n m p : Nat) : Prop :=
+  ∃ r, dot a b = some (.ok r) ∧ r.shape = [n, p] ∧ r.WF ∧
+    ∀ i j, i < n → j < p → r.get? [i, j] = some (∑ k ∈ range m, a.ent [i, k] * b.ent [k, j])
+
+/-- **matrix · matrix under `dot`, outside the open finding**: proved when the result is square (`n = p`).
+Missing for the full statement: `n ≠ p`, where the (test-pinned) extra check of `dot` refuses the product. -/
+theorem dot_22_partial (a b : A) (n m p : Nat) (ha : a.WF) (hb : b.WF)
+    (hsa : a.shape = [n, m]) (hsb : b.shape = [m, p]) (h1 : a.len ≠ 1) (h2 : b.len ≠ 1)
+    (hsq : n = p) : DotMatMat a b n m p := by
+  obtain ⟨r, hr, hrest⟩ := matmul_22 a b n m p ha hb hsa hsb
+  refine ⟨r, ?_, hrest⟩
+  unfold dot
+  rw [if_neg (by simp [h1, h2])]
+  simp only [Arr.ndim, hsa, hsb, List.length_cons, List.length_nil]
+  simp [shapesAlign, hsq, hr]
+
+/-- the open finding, at its witness (`products_test::test_linalg_dot::case_15`): the conforming product
+`2×2 · 2×3` is refused, so the full statement fails there -/
+theorem dot_22_open_witness :
+    dot ⟨[1, 2, 3, 4], [2, 2]⟩ ⟨[5, 6, 3, 7, 8, 3], [2, 3]⟩ = some (.err .ParameterError) ∧
+    ¬ DotMatMat ⟨[1, 2, 3, 4], [2, 2]⟩ ⟨[5, 6, 3, 7, 8, 3], [2, 3]⟩ 2 2 3 := by
+  have h : dot ⟨[1, 2, 3, 4], [2, 2]⟩ ⟨[5, 6, 3, 7, 8, 3], [2, 3]⟩ = some (.err .ParameterError) := by decide
+  refine ⟨h, ?_⟩
+  rintro ⟨r, hr, _⟩
+  rw [h] at hr
+  cases hr
+
+/-! ### dot: refusals -/
+
+theorem dot_refuses_11 (a b : A) (k k' : Nat) (ha : a.WF) (hb : b.WF) (hsa : a.shape = [k]) (hsb : b.shape = [k'])
+    (hk : k ≠ 1) (hk' : k' ≠ 1) (h : k ≠ k') : dot a b = some (.err .MustBeEqual) := by
+  have hla : a.elems.length = k := by rw [ha, hsa]; simp
+  have hlb : b.elems.length = k' := by rw [hb, hsb]; simp
+  unfold dot vdot
+  simp [Arr.ndim, Arr.len, hsa, hsb, hla, hlb, h, hk, hk']
+
+/-- matrices that do not conform are refused by `dot` (whatever the other axes are) -/
+theorem dot_refuses_22 (a b : A) (n m m' p : Nat) (hsa : a.shape = [n, m]) (hsb : b.shape = [m', p])
+    (h1 : a.len ≠ 1) (h2 : b.len ≠ 1) (h : m ≠ m') : dot a b = some (.err .ParameterError) := by
+  unfold dot
+  rw [if_neg (by simp [h1, h2])]
+  simp only [Arr.ndim, hsa, hsb, List.length_cons, List.length_nil]
+  simp only [Nat.zero_add, Nat.reduceAdd, Nat.reduceEqDiff, and_self, if_false, if_true, and_false]
+  rw [matmul_refuses_22 a b n m m' p hsa hsb h]
+  unfold shapesAlign
+  by_cases hnp : n = p <;> simp [hnp]
+
+theorem dot_refuses_21 (a b : A) (n k k' : Nat) (ha : a.WF) (hb : b.WF) (hn : 0 < n)
+    (hsa : a.shape = [n, k]) (hsb : b.shape = [k'])
+    (h1 : a.len ≠ 1) (h2 : b.len ≠ 1) (h : k ≠ k') : ∃ e, dot a b = some (.err e) := by
+  have hla := wf_len2 ha hsa
+  have hlb : b.elems.length = k' := by rw [hb, hsb]; simp
+  unfold dot
+  rw [if_neg (by simp [h1, h2])]
+  simp only [Arr.ndim, hsa, hsb, List.length_cons, List.length_nil]
+  simp only [Nat.zero_add, Nat.reduceAdd, Nat.reduceEqDiff, and_self, if_false, and_false, or_true, if_true,
+    Nat.le_refl, Nat.one_le_ofNat, and_true, false_and]
+  unfold dot1d
+  simp only [Arr.ndim, hsa, hsb, List.length_cons, List.length_nil, Nat.zero_add, Nat.reduceAdd, Nat.one_lt_ofNat,
+    if_true, Nat.lt_irrefl, if_false, getRows_eq a n k hsa, Res.bind_ok, Res.pure_eq, dotIterate,
+    List.map_cons, List.map_nil, List.flatMap_map]
+  rw [← List.map_eq_flatMap, collectRes_all_err _ _ .MustBeEqual (by simp; omega)]
+  · exact ⟨_, rfl⟩
+  · intro i hi
+    have hi' : i < n := by simpa using hi
+    have hlr : (row a k i).length = k := length_row a k i (by rw [hla]; exact Nat.mul_le_mul_right k hi')
+    unfold vdot
+    simp [Arr.flat, Arr.len, hlr, hlb, h]
+
+theorem dot_refuses_12 (a b : A) (k k' p : Nat) (ha : a.WF) (hp : 0 < p)
+    (hsa : a.shape = [k]) (hsb : b.shape = [k', p])
+    (h1 : a.len ≠ 1) (h2 : b.len ≠ 1) (h : k ≠ k') : ∃ e, dot a b = some (.err e) := by
+  have hla : a.elems.length = k := by rw [ha, hsa]; simp
+  unfold dot
+  rw [if_neg (by simp [h1, h2])]
+  simp only [Arr.ndim, hsa, hsb, List.length_cons, List.length_nil]
+  simp only [Nat.zero_add, Nat.reduceAdd, Nat.reduceEqDiff, and_self, if_false, and_false, true_or, if_true,
+    Nat.le_refl, Nat.one_le_ofNat, and_true, false_and]
+  unfold dot1d
+  simp only [Arr.ndim, hsa, hsb, List.length_cons, List.length_nil, Nat.zero_add, Nat.reduceAdd, Nat.one_lt_ofNat,
+    if_true, Nat.lt_irrefl, if_false, getColumns_eq b k' p hsb, Res.bind_ok, Res.pure_eq, dotIterate,
+    List.flatMap_cons, List.flatMap_nil, List.append_nil, List.map_map]
+  rw [collectRes_all_err _ _ .MustBeEqual (by simp; omega)]
+  · exact ⟨_, rfl⟩
+  · intro j _
+    unfold vdot
+    simp [Function.comp, Arr.flat, Arr.len, col, hla, h]
+
+/-! ## inner, outer, vdot -/
+
+/-- **inner, two vectors** -/
+theorem inner_11 (a b : A) (k : Nat) (ha : a.WF) (hb : b.WF) (hsa : a.shape = [k]) (hsb : b.shape = [k]) :
+    inner a b = .ok ⟨[∑ i ∈ range k, a.ent [i] * b.ent [i]], [1]⟩ := by
+  have hla : a.elems.length = k := by rw [ha, hsa]; simp
+  have hlb : b.elems.length = k := by rw [hb, hsb]; simp
+  unfold inner inner11 shapesAlign
+  simp only [Arr.ndim, hsa, hsb, List.length_cons, List.length_nil, Nat.zero_add, and_self, if_true,
+    List.getElem?_cons_zero, Res.bind_ok]
+  rw [sumProd_eq_sum _ _ (by rw [hla, hlb]), hla]
+  congr 3
+  apply Finset.sum_congr rfl
+  intro i _
+  rw [ent_eq_getD, ent_eq_getD, hsa, hsb]; simp [ravel]
+
+/-- **inner, any ranks** (not both vectors): shapes `sa ++ [k]` and `sb ++ [k]` give shape `sa ++ sb`, and the entry
+at `(ca, cb)` is `Σ_q A[ca, q]·B[cb, q]` — the contraction of the two last axes. -/
+theorem inner_spec (a b : A) (sa sb : List Nat) (k : Nat) (ha : a.WF) (hb : b.WF)
+    (hsa : a.shape = sa ++ [k]) (hsb : b.shape = sb ++ [k]) (hpa : 0 < sa.prod) (hpb : 0 < sb.prod)
+    (hrank : ¬ (sa = [] ∧ sb = [])) :
+    ∃ r, inner a b = .ok r ∧ r.shape = sa ++ sb ∧ r.WF ∧
+      ∀ ca cb, inRange sa ca = true → inRange sb cb = true →
+        r.get? (ca ++ cb) = some (∑ q ∈ range k, a.ent (ca ++ [q]) * b.ent (cb ++ [q])) := by
+  refine ⟨inn a b sa sb k, ?_, rfl, ?_, ?_⟩
+  · unfold inner
+    have hnd : ¬ (a.ndim = 1 ∧ b.ndim = 1) := by
+      simp only [Arr.ndim, hsa, hsb, List.length_append, List.length_cons, List.length_nil]
+      intro ⟨h1, h2⟩
+      exact hrank ⟨List.length_eq_zero_iff.1 (by omega), List.length_eq_zero_iff.1 (by omega)⟩
+    rw [if_neg hnd]
+    have hal : shapesAlign a.shape (a.ndim - 1) b.shape (b.ndim - 1) = .ok () := by
+      unfold shapesAlign
+      simp [Arr.ndim, hsa, hsb]
+    rw [hal]; simp only [Res.bind_ok]
+    exact innerNd_eq a b sa sb k ha hb hsa hsb hpa hpb
+  · simp [Arr.WF, inn, length_flatMap_range]
+  · intro ca cb hca hcb
+    exact inn_get a b sa sb k ha hb hsa hsb ca cb hca hcb
+
+/-- inner refuses operands whose last axes differ (any ranks) -/
+theorem inner_refuses (a b : A) (sa sb : List Nat) (k k' : Nat)
+    (hsa : a.shape = sa ++ [k]) (hsb : b.shape = sb ++ [k']) (h : k ≠ k') :
+    inner a b = .err .ParameterError := by
+  unfold inner inner11 shapesAlign
+  by_cases hnd : a.ndim = 1 ∧ b.ndim = 1
+  · rw [if_pos hnd]
+    have h1 : sa = [] := by have := hnd.1; simpa [Arr.ndim, hsa] using this
+    have h2 : sb = [] := by have := hnd.2; simpa [Arr.ndim, hsb] using this
+    simp [hsa, hsb, h1, h2, h]
+  · rw [if_neg hnd]
+    simp [Arr.ndim, hsa, hsb, h]
+
+/-- **outer**: both operands are flattened; shape `[len a, len b]`, entry `(i,j)` is `a_i · b_j` -/
+theorem outer_spec (a b : A) :
+    ∃ r, outer a b = .ok r ∧ r.shape = [a.len, b.len] ∧ r.WF ∧
+      ∀ i j, i < a.len → j < b.len → r.get? [i, j] = some (a.elems.getD i 0 * b.elems.getD j 0) := by
+  refine ⟨_, outer_eq a b, rfl, ?_, ?_⟩
+  · unfold Arr.WF
+    simp only
+    rw [length_flatMap_uniform _ _ b.elems.length (by intro x _; simp)]
+    simp [Arr.len]
+  · intro i j hi hj
+    exact outer_get a b i j hi hj
+
+/-- **vdot** (flattened dot product): operands of equal length, whatever their shapes -/
+theorem vdot_spec (a b : A) (h : a.len = b.len) :
+    vdot a b = .ok ⟨[∑ i ∈ range a.len, a.elems.getD i 0 * b.elems.getD i 0], [1]⟩ := by
+  unfold vdot
+  rw [if_pos h, sumProd_eq_sum _ _ h]; rfl
+
+theorem vdot_refuses (a b : A) (h : a.len ≠ b.len) : vdot a b = .err .MustBeEqual := by
+  unfold vdot; rw [if_neg h]
+
+/-! ## results are well-formed (element count = product of the shape), for every input -/
+
+theorem matmul_wf (a b r : A) (h : matmul a b = .ok r) : r.WF := by
+  unfold matmul at h
+  split at h
+  · exact vdot_wf h
+  · split at h
+    · simp only [bind_eq_ok_iff] at h
+      obtain ⟨_, _, h⟩ := h
+      exact matmul1dNd_wf _ _ _ _ h
+    · split at h
+      · exact matmul22_wf h
+      · exact matmulNd_wf h
+
+theorem inner_wf (a b r : A) (h : inner a b = .ok r) : r.WF := by
+  unfold inner at h
+  split at h
+  · unfold inner11 at h
+    simp only [bind_eq_ok_iff] at h
+    obtain ⟨_, _, h⟩ := h
+    cases h; simp [Arr.WF]
+  · unfold innerNd at h
+    simp only [bind_eq_ok_iff] at h
+    obtain ⟨_, _, _, _, _, _, _, _, _, _, _, _, h⟩ := h
+    exact reshape_wf h
+
+theorem dot_wf (a b r : A) (ha : a.WF) (hb : b.WF) (h : dot a b = some (.ok r)) : r.WF := by
+  unfold dot at h
+  split at h
+  · exact multiplyScalar_wf a b r ha hb (by simpa using h)
+  · split at h
+    · exact vdot_wf (by simpa using h)
+    · split at h
+      · simp only [Option.some.injEq, bind_eq_ok_iff] at h
+        obtain ⟨_, _, h⟩ := h
+        exact matmul_wf a b r h
+      · split at h
+        · split at h
+          · exact dot1d_wf (by simpa using h)
+          · cases h
+        · cases h
+
+theorem outer_wf (a b r : A) (h : outer a b = .ok r) : r.WF := reshape_wf h
+
+theorem vdot_wf' (a b r : A) (h : vdot a b = .ok r) : r.WF := vdot_wf h
+
+/-! ### non-vacuity: concrete instances (also the suite's own rows) -/
+example : matmul ⟨[1, 2, 3, 4, 5, 6], [2, 3]⟩ ⟨[1, 2, 3, 4, 5, 6], [3, 2]⟩ = .ok ⟨[22, 28, 49, 64], [2, 2]⟩ := by decide
+example : matmul ⟨[1, 2, 3, 4, 5, 6, 7, 8, 9], [3, 3]⟩ ⟨[1, 2, 3, 4, 5, 6], [3, 2]⟩
+    = .ok ⟨[22, 28, 49, 64, 76, 100], [3, 2]⟩ := by decide
+example : matmul ⟨[1, 2], [2]⟩ ⟨[0, 1, 2, 3, 4, 5], [2, 3]⟩ = .ok ⟨[6, 9, 12], [3]⟩ := by decide
+example : matmul ⟨[1, 2, 3, 4, 5, 6], [2, 3]⟩ ⟨[1, 2, 3, 4, 5, 6, 7, 8], [4, 2]⟩ = .err .ParameterError := by decide
+example : matmul ⟨[0, 1, 2, 3, 4, 5, 6, 7], [2, 2, 2]⟩ ⟨[0, 1, 2, 3, 4, 5, 6, 7], [2, 2, 2]⟩
+    = .ok ⟨[2, 3, 6, 11, 46, 55, 66, 79], [2, 2, 2]⟩ := by decide
+example : inner ⟨[6, 5, 4, 3, 2, 1], [2, 3]⟩ ⟨[1, 2, 3], [3]⟩ = .ok ⟨[28, 10], [2]⟩ := by decide
+example : (⟨[1, 2, 3, 4, 5, 6], [2, 3]⟩ : A).WF ∧ inRange [2] [1] = true ∧ (0 < [2].prod) := by decide
+example : dot ⟨[1, 2, 3, 4], [2, 2]⟩ ⟨[5, 6, 7, 8], [2, 2]⟩ = some (.ok ⟨[19, 22, 43, 50], [2, 2]⟩) := by decide
+example : dot ⟨[2], [1]⟩ ⟨[1, 2, 3, 4], [2, 2]⟩ = some (.ok ⟨[2, 4, 6, 8], [2, 2]⟩) := by decide
 
 end ArrModel.C14
